@@ -114,6 +114,24 @@ Theorem C25_full_refuted : ~ C25_full.
 Proof. exact full_statement_refuted. Qed.
 Print Assumptions C25_full_refuted.
 
+(* Reader side of a zero-filled decimal setting (holds since /repo 601f9e0 and
+   6b24587, parser.go stripDecimalLeadingZeros; before them "010" and "0_10"
+   were read as octal 8 and "08" rejected): the text a %0<width>d verb writes for an integer element of
+   any integer kind is read back as that element in an array without base
+   letter.  (The encoder still has no such verb: C25_decimal_zero_filled_refuted.) *)
+Theorem C25_zero_filled_decimal_elements_read :
+  forall (k : kind) (width x : N),
+    kind_class k <> CFloat -> x < 2 ^ kind_bits k ->
+    let t := go_int_text (is_signed k) (kind_bits k) x 10 true width in
+    read_int_elem k MDec t = Some x /\ run_ok t.
+Proof. exact zero_filled_decimal_elem_read. Qed.
+Print Assumptions C25_zero_filled_decimal_elements_read.
+
+Example C25_example_leading_zeros :
+  read_elems no_p (s2b "@i8[010 -0017 08 09 00 -00 0x10 0_10 00_8 0__1]"%string) = Ok (KI8, [10; 239; 8; 9; 0; 0; 16; 10; 8; 1]) /\
+  go_int_text true 8 239 10 true 5 = s2b "-0017"%string.
+Proof. exact ex_leading_zeros. Qed.
+
 (* Non-vacuity: real strconv output for 1.5 and -0.1 satisfies the hypothesis,
    and the model writes and reads what the implementation does. *)
 Example C25_example_hypothesis : strconv_ok_on ex_g ex_p KF64 ex_xs.
